@@ -191,14 +191,6 @@ func init() {
 	}
 }
 
-func leanBytes(s string) string {
-	parts := make([]string, len(s))
-	for i := 0; i < len(s); i++ {
-		parts[i] = fmt.Sprint(s[i])
-	}
-	return "[" + strings.Join(parts, ", ") + "]"
-}
-
 // declOfFunc finds the declaration of a method object.
 func (p *pkgInfo) declOfFunc(obj types.Object) *ast.FuncDecl {
 	for _, f := range p.files {
